@@ -1447,6 +1447,13 @@ func main() {
 					if c, ok := rs[0].(*ast.CallExpr); ok && selName(c.Fun) == "slices.Clone" && len(c.Args) == 1 && isIdent(c.Args[0], "_T_enumTypeName_TValues") {
 						body = "ValCloneOfTable"
 					}
+					// the table itself, or a re-slicing of it: the caller's slice shares the table's array
+					if isIdent(rs[0], "_T_enumTypeName_TValues") {
+						body = "ValAliasOfTable"
+					}
+					if sl, ok := rs[0].(*ast.SliceExpr); ok && isIdent(sl.X, "_T_enumTypeName_TValues") {
+						body = "ValAliasOfTable"
+					}
 				}
 				add("values", d, body)
 			case "StringValues":
